@@ -220,3 +220,14 @@ def train(tier: str, prop: str) -> list[dict]:
         c("DQN", "sim_discrete", 1, 4, "video" if False else "list", [33], starts=0),
         c("SAC", "sim_box", 3, 2, "tb", [20], starts=6),
     ]
+
+
+def evalhelper(tier: str, prop: str) -> list[dict]:
+    d = dict(masked=False, obs_kind="box")
+    return [
+        dict(d, kind="discrete", dims=[3], S=5, stack=["TimeLimit"], episodes=1, cap=4),
+        dict(d, kind="discrete", dims=[2], S=4, stack=["TimeLimit"], episodes=3, cap=None),
+        dict(d, kind="box", dims=[2], S=4, stack=["TimeLimit"], episodes=2, cap=12),
+        dict(d, kind="multidiscrete", dims=[2, 2], S=4, stack=[], episodes=4, cap=6),
+        dict(d, kind="discrete", dims=[4], S=6, stack=["TimeLimit", "Identity"], episodes=2, cap=1),
+    ]
